@@ -155,6 +155,8 @@ func (e *catEng) step(entry, step, canary string) string {
 	switch variant {
 	case "alt":
 		data = catAlt(canary)
+	case "retyped":
+		data = catRetyped(canary)
 	case "nil":
 		data = nil // a render without any data
 	case "empty":
@@ -394,7 +396,7 @@ func init() {
 		ID:    "C10",
 		Level: "model_checking",
 		Rule: "a catalogue of " + fmt.Sprint(len(Catalog)) + " programs (one per feature, incl. 6 failing ones), all on one file set. (1) map-order: with every map iteration of the vuego module behind a seam, every execution with <=d deviating occurrences (all permutations for <=4 keys, reversal+rotations above) plus two global orders must give the bytes of the ascending-order run; " +
-			"(2) histories: every ordered sequence of <=L (program, data set) steps - each program with its normal and with an alternative data set that flips every boolean and changes lengths and strings, and without any data (nil / empty map) - on one engine through Load().Fill().Render, Vue.Render and Vue.RenderFragment, last render compared with a fresh engine, no canary of an earlier render; (3) caller data deep-equal before/after through 4 entry points; (4) frozen and backwards clocks. states = executions whose output was compared; non-trivial = program reaches at least one map iteration / any history",
+			"(2) histories: every ordered sequence of <=L (program, data set) steps - each program with its normal and with an alternative data set that flips every boolean and changes lengths and strings, with the same values in other Go types (float64 for int, typed slices and maps, a struct for a map), and without any data (nil / empty map) - on one engine through Load().Fill().Render, Vue.Render and Vue.RenderFragment, last render compared with a fresh engine, no canary of an earlier render; (3) caller data deep-equal before/after through 4 entry points; (4) frozen and backwards clocks. states = executions whose output was compared; non-trivial = program reaches at least one map iteration / any history",
 		Bounds:      map[string]string{"quick": "d=1 deviation, L=2 (all ordered pairs)", "thorough": "d=2 deviations, L=3 (all ordered triples)"},
 		Assumptions: []string{"the instrumenter finds every range-over-map and MapKeys call of the vuego module by type (sites listed in the overlay's sites.json)", "map iteration inside dependencies (expr-lang, yaml, goldmark) is not controlled"},
 		Decode:      core.DecodeAs[c10Case](),
@@ -425,6 +427,7 @@ func init() {
 					for _, p := range Catalog {
 						rec(append(seq, p.Name))
 						rec(append(seq, p.Name+"~alt"))
+						rec(append(seq, p.Name+"~retyped"))
 						if len(seq) == 0 || p.HasFM {
 							// without data: as the first step for every program, later for programs with front-matter
 							rec(append(seq, p.Name+"~nil"))
